@@ -162,6 +162,7 @@ static void roundtrip(const GCase& g, Ctx& c, RT& rt, bool countKinds = true) {
     c.count("grammars:" + g.family);
     std::string exc;
     if (!pool_serialize(A.p, rt.sa, exc)) { c.violation("serialize-exception", in + ",\"which\":\"A\",\"exception\":" + jstr(exc)); return; }
+    if (c.verbose && getenv("C16_DUMPSTREAMS")) { FILE* f = fopen((std::string(getenv("C16_DUMPSTREAMS")) + ".a").c_str(), "wb"); if (f) { fwrite(rt.sa.data(), 1, rt.sa.size(), f); fclose(f); } }
     Pool B;
     exc = pool_deserialize(B.p, rt.sa);
     if (!exc.empty()) { c.violation("deserialize-exception", in + ",\"which\":\"B\",\"exception\":" + jstr(exc)); return; }
